@@ -1,12 +1,223 @@
 /-
 C11 — valid queries parse to the structure they denote; invalid ones are rejected.
+
+Layers: bytes --tokenize--> tokens --tokensConsume / parseTokens--> clauses --per-clause
+builders--> Query.  The theorems below cover the token → Query layers for every token list
+(unbounded): clause boundaries, what each clause denotes, irrelevance of the clause order,
+keyword case, the optional `by`, the select items, the rejection classes, and that no input
+makes the parser panic.  The bytes → tokens layer (`strings.Split` on quotes, `strings.Fields`)
+is tied to the code by the differential run only (DESIGN §5 C11).
 -/
-import DtailModel.Model.Query
+import DtailModel.Lemmas.QueryPatch
 namespace Dtail.C11
 open Dtail
 
-/-- a lone back-quote is an ordinary token after the fix (it used to slice [1:0]) -/
+/-- **Parsing never panics**, whatever the bytes (this includes the lone back-quote that used
+    to slice `[1:0]`, repaired by `fix:` 10232cb). -/
+theorem C11_never_panics (fl : FloatOracle) (q : Bytes) : (newQuery fl q).isPanic = false :=
+  newQuery_noPanic fl q
+
+/-- a lone back-quote is an ordinary token after the fix -/
 theorem C11_lone_backquote : tokensConsume [⟨[BACKTICK], true, false⟩] = .ok (none, [⟨[BACKTICK], true, false⟩]) := by
+  decide
+
+/-- **Clause boundaries.** Parsing the flat token list of a query is parsing its clauses one
+    by one, each on its own, in whatever order they come: no token of one clause is taken for
+    part of another (every body token that is not a bare keyword stays in its clause — quoted
+    strings and back-quoted field names that spell a keyword included). -/
+theorem C11_clause_boundaries (fl : FloatOracle) (cs : List ClauseT) (hwf : ∀ c ∈ cs, ClauseWF c)
+    (fuel : Nat) (hf : cs.length ≤ fuel) (q : Query) :
+    parseTokensAux fl fuel q (flatC cs) = foldClauses fl q cs := parseTokensAux_flat fl cs hwf fuel hf q
+
+/-- **What a clause denotes**: parsed on its own, a clause applies the patch of its kind — built
+    from the tokens after the optional `by`, empty tokens dropped, back-quotes stripped — to the
+    query so far; nothing else of the query changes. -/
+theorem C11_clause_denotes (fl : FloatOracle) (q : Query) (c : ClauseT) (h : ClauseWF c) :
+    clauseStep fl q c = (patchOf fl c).bind (fun p => .ok (p.apply q)) :=
+  clauseStep_patch fl q c h.2.1 h.2.2
+
+/-- the last checks of `Query.parse`: a select list, the default group key, the order key -/
+def finishQuery (q : Query) : Outcome Query :=
+  if q.sel.length < 1 then .err "Expected at least one field in 'select' clause" else
+  let q := if q.groupBy.length = 0 then (match q.sel with | s0 :: _ => { q with groupBy := [s0.field] } | [] => q) else q
+  if q.orderBy ≠ [] ∧ !(q.sel.any (fun sc => sc.storage = q.orderBy)) then
+    .err "Can not '(r)order by', must be present in 'select' clause"
+  else .ok q
+
+theorem parseQuery_eq (fl : FloatOracle) (ts : List Tok) :
+    parseQuery fl ts = (parseTokensAux fl (ts.length + 1) {} ts).bind finishQuery := by
+  unfold parseQuery finishQuery
+  simp only [Bind.bind, Pure.pure]
+  cases parseTokensAux fl (ts.length + 1) {} ts with
+  | err e => rfl
+  | panic p => rfl
+  | ok q =>
+    simp only [Outcome.bind]
+    by_cases h1 : q.sel.length < 1
+    · simp [h1]
+    · simp only [h1, if_false]
+      cases hs : q.sel with
+      | nil => simp [hs] at h1
+      | cons s0 rest =>
+        by_cases h2 : q.groupBy.length = 0
+        · simp [h2, goIndex, Outcome.bind]
+        · simp [h2, Outcome.bind, hs]
+
+theorem flatC_length (cs : List ClauseT) : cs.length ≤ (flatC cs).length := by
+  induction cs with
+  | nil => simp [flatC]
+  | cons c rest ih => simp only [flatC, List.flatMap_cons, List.length_append, List.length_cons] at ih ⊢; omega
+
+/-- **The parsed query is the denotation of its clauses**: for every well-formed clause list
+    whose clauses all denote something, `Query.parse` returns the default query patched by
+    every clause, followed by the final checks. -/
+theorem C11_parse_denotes (fl : FloatOracle) (cs : List ClauseT) (hwf : ∀ c ∈ cs, ClauseWF c)
+    (ps : List QPatch) (hp : patchesOf fl cs = .ok ps) :
+    parseQuery fl (flatC cs) = finishQuery (applyAll ps {}) := by
+  rw [parseQuery_eq, parseTokensAux_flat fl cs hwf _ (by have := flatC_length cs; omega),
+    foldClauses_patches fl cs hwf {} ps hp]
+  rfl
+
+/-- **Any clause order**: two queries whose clauses are permutations of each other (one clause
+    per kind) parse to the same structure. -/
+theorem C11_clause_order_irrelevant (fl : FloatOracle) (cs cs' : List ClauseT)
+    (hwf : ∀ c ∈ cs, ClauseWF c) (hperm : cs.Perm cs') (hk : (cs.map clauseKind).Nodup)
+    (ps : List QPatch) (hp : patchesOf fl cs = .ok ps) :
+    parseQuery fl (flatC cs') = parseQuery fl (flatC cs) := by
+  obtain ⟨ps', hp', hpp⟩ := patchesOf_perm fl cs cs' hperm ps hp
+  have hwf' : ∀ c ∈ cs', ClauseWF c := fun c hc => hwf c (hperm.mem_iff.2 hc)
+  rw [C11_parse_denotes fl cs hwf ps hp, C11_parse_denotes fl cs' hwf' ps' hp',
+    applyAll_perm ps ps' hpp (patchesOf_pairwise fl cs ps hp hk)]
+
+/-- **Keyword case**: a clause is dispatched on the lower-cased keyword only. -/
+theorem C11_keyword_case (fl : FloatOracle) (q : Query) (kw kw' : Tok) (tail : List Tok)
+    (h : lowerKey kw.str = lowerKey kw'.str) : parseClause fl q (kw :: tail) = parseClause fl q (kw' :: tail) := by
+  unfold parseClause
+  simp only [goIndex, goSliceFrom, List.getElem?_cons_zero, List.length_cons, List.drop_succ_cons, List.drop_zero,
+    Nat.le_add_left, if_true, Bind.bind, Outcome.bind, h]
+
+theorem C11_keyword_case_examples :
+    lowerKey (b!"SELECT") = b!"select" ∧ lowerKey (b!"GrOuP") = b!"group" ∧ lowerKey (b!"rOrder") = b!"rorder" := by decide
+
+/-- **`by` is optional** after group / order / rorder. -/
+theorem C11_by_optional (kwl : Bytes) (byTok : Tok) (body : List Tok)
+    (hk : kwl = b!"group" ∨ kwl = b!"rorder" ∨ kwl = b!"order") (hby : equalFoldAscii byTok.str (b!"by") = true)
+    (hb : ∀ t rest, body = t :: rest → equalFoldAscii t.str (b!"by") = false) :
+    afterBy kwl (byTok :: body) = afterBy kwl body := by
+  unfold afterBy
+  simp only [hk, if_true, consumeOptional, hby]
+  cases body with
+  | nil => rfl
+  | cons t rest => simp [consumeOptional, hb t rest rfl]
+
+/-- **Select items**: a bare field (no parentheses) denotes `last(field)` stored under its own
+    name; a back-quoted name likewise, whatever it contains. -/
+theorem C11_select_plain (t : Tok) (h : t.stripped = true ∨ (t.str.contains LPAR = false ∧ t.str.contains RPAR = false)) :
+    parseSelect t = .ok ⟨t.str, t.str, .last⟩ := by
+  unfold parseSelect
+  have hc : t.stripped = true ∨ ((!t.str.contains LPAR) = true ∧ (!t.str.contains RPAR) = true) := by
+    rcases h with h | ⟨h1, h2⟩
+    · exact Or.inl h
+    · exact Or.inr ⟨by rw [h1]; rfl, by rw [h2]; rfl⟩
+  rw [if_pos hc]
+
+/-- `agg(field)` denotes the aggregation named `agg` over `field`, stored under the whole text -/
+theorem C11_select_agg (agg f : Bytes) (bare : Bool) (op : AggOp)
+    (ha : LPAR ∉ agg) (hf1 : LPAR ∉ f) (hf2 : RPAR ∉ f) (hop : aggOfName agg = some op) :
+    parseSelect ⟨agg ++ LPAR :: (f ++ [RPAR]), bare, false⟩ = .ok ⟨f, agg ++ LPAR :: (f ++ [RPAR]), op⟩ := by
+  unfold parseSelect
+  have hc : (agg ++ LPAR :: (f ++ [RPAR])).contains LPAR = true := by simp
+  have hs1 : splitOnByte LPAR (agg ++ LPAR :: (f ++ [RPAR])) = [agg, f ++ [RPAR]] := by
+    rw [splitOnByte_append_sep LPAR _ _ ha]
+    rw [splitOnByte_nosep LPAR _ (by
+      intro hm; rcases List.mem_append.1 hm with h | h
+      · exact hf1 h
+      · simp [LPAR, RPAR] at h)]
+  have hs2 : splitOnByte RPAR (f ++ [RPAR]) = [f, []] := by
+    have : f ++ [RPAR] = f ++ RPAR :: [] := rfl
+    rw [this, splitOnByte_append_sep RPAR _ _ hf2]; rfl
+  simp [hc, hs1, hs2, goIndex, hop, Bind.bind, Outcome.bind]
+
+/-! ### rejection classes -/
+
+/-- a token in clause position that is none of the eleven keywords is rejected -/
+theorem C11_reject_unknown_keyword (fl : FloatOracle) (q : Query) (kw : Tok) (tail : List Tok)
+    (h : kindOf (lowerKey kw.str) = 10) : parseClause fl q (kw :: tail) = .err "Unexpected keyword" := by
+  unfold kindOf at h
+  unfold parseClause
+  simp only [goIndex, goSliceFrom, List.getElem?_cons_zero, List.length_cons, List.drop_succ_cons, List.drop_zero,
+    Nat.le_add_left, if_true, Bind.bind, Outcome.bind]
+  repeat (split at h <;> first | (simp at h; done) | skip)
+  simp_all
+
+/-- a query without a select list is rejected -/
+theorem C11_reject_no_select (q : Query) (h : q.sel = []) :
+    finishQuery q = .err "Expected at least one field in 'select' clause" := by
+  simp [finishQuery, h]
+
+/-- an order key that is not one of the selected columns is rejected -/
+theorem C11_reject_order_key (q : Query) (hs : q.sel ≠ []) (ho : q.orderBy ≠ [])
+    (hn : ∀ sc ∈ q.sel, sc.storage ≠ q.orderBy) :
+    finishQuery q = .err "Can not '(r)order by', must be present in 'select' clause" := by
+  obtain ⟨sel, table, whr, set, groupBy, orderBy, reverse, groupKey, interval, limit, outfile, logFormat⟩ := q
+  simp only at hs ho hn
+  cases sel with
+  | nil => exact absurd rfl hs
+  | cons s0 rest =>
+    have hany : (s0 :: rest).any (fun sc => decide (sc.storage = orderBy)) = false := by
+      simp only [List.any_eq_false, decide_eq_true_eq]; exact hn
+    unfold finishQuery
+    by_cases hg : groupBy.length = 0 <;> simp [hg, ho, hany]
+
+/-- where conditions: fewer than three tokens, or an unknown operator, are rejected -/
+theorem C11_reject_where_short (fl : FloatOracle) (ts : List Tok) (h : ts.length < 3) :
+    parseWhere fl ts = .err "Not enough arguments in 'where' clause" := by
+  simp [parseWhere, h]
+
+theorem C11_reject_where_operator (fl : FloatOracle) (a op b : Tok) (rest : List Tok)
+    (h : whereOpOf (lowerKey op.str) = none) :
+    parseWhere fl (a :: op :: b :: rest) = .err "Unknown operation in 'where' clause" := by
+  simp [parseWhere, goIndex, h, Bind.bind, Outcome.bind]
+
+/-- limit / interval that are not numbers, a missing table name, two table names, an unknown
+    aggregation are rejected (patch level) -/
+theorem C11_reject_limit (fl : FloatOracle) (t : Tok) (rest : List Tok) (h : atoi t.str = none) :
+    clausePatch fl (b!"limit") (t :: rest) = .err "limit: not a number" := by
+  simp [clausePatch, h]
+
+theorem C11_reject_interval (fl : FloatOracle) (t : Tok) (rest : List Tok) (h : atoi t.str = none) :
+    clausePatch fl (b!"interval") (t :: rest) = .err "interval: not a number" := by
+  simp [clausePatch, h]
+
+theorem C11_reject_two_tables (fl : FloatOracle) (a b : Tok) (rest : List Tok) :
+    clausePatch fl (b!"from") (a :: b :: rest) = .err "expected only one table name after 'from'" := by
+  simp [clausePatch]
+
+theorem C11_reject_unknown_aggregation (agg f : Bytes) (bare : Bool)
+    (ha : LPAR ∉ agg) (hf1 : LPAR ∉ f) (hf2 : RPAR ∉ f) (hop : aggOfName agg = none) :
+    parseSelect ⟨agg ++ LPAR :: (f ++ [RPAR]), bare, false⟩ = .err "Unknown aggregation in 'select' clause" := by
+  unfold parseSelect
+  have hc : (agg ++ LPAR :: (f ++ [RPAR])).contains LPAR = true := by simp
+  have hs1 : splitOnByte LPAR (agg ++ LPAR :: (f ++ [RPAR])) = [agg, f ++ [RPAR]] := by
+    rw [splitOnByte_append_sep LPAR _ _ ha]
+    rw [splitOnByte_nosep LPAR _ (by
+      intro hm; rcases List.mem_append.1 hm with h | h
+      · exact hf1 h
+      · simp [LPAR, RPAR] at h)]
+  have hs2 : splitOnByte RPAR (f ++ [RPAR]) = [f, []] := by
+    have : f ++ [RPAR] = f ++ RPAR :: [] := rfl
+    rw [this, splitOnByte_append_sep RPAR _ _ hf2]; rfl
+  simp [hc, hs1, hs2, goIndex, hop, Bind.bind, Outcome.bind]
+
+/-- non-vacuity: a three-clause query in two different orders, with a back-quoted keyword as a
+    field name, mixed keyword case and an optional `by` -/
+example :
+    let sel : ClauseT := ⟨⟨b!"SELECT", true, false⟩, [⟨b!"count(x)", true, false⟩, ⟨b!"`from`", true, false⟩]⟩
+    let frm : ClauseT := ⟨⟨b!"from", true, false⟩, [⟨b!"stats", true, false⟩]⟩
+    let grp : ClauseT := ⟨⟨b!"Group", true, false⟩, [⟨b!"by", true, false⟩, ⟨b!"host", true, false⟩]⟩
+    parseQuery (fun _ => none) (flatC [frm, grp, sel]) = parseQuery (fun _ => none) (flatC [sel, frm, grp])
+    ∧ (parseQuery (fun _ => none) (flatC [sel, frm, grp])).isPanic = false
+    ∧ ((parseQuery (fun _ => none) (flatC [sel, frm, grp])) matches .ok _) := by
   decide
 
 end Dtail.C11
